@@ -32,6 +32,16 @@ func (x *Exec) callbackContract(t types.Type) *Contract {
 	if !ok {
 		return nil
 	}
+	// a named function type may have its own callback contract (e.g. context.CancelFunc)
+	if n, isNamed := types.Unalias(t).(*types.Named); isNamed {
+		nk := n.Obj().Name()
+		if n.Obj().Pkg() != nil && n.Obj().Pkg() != x.pkg.Pkg {
+			nk = n.Obj().Pkg().Name() + "." + nk
+		}
+		if c := x.specs.Contracts[nk]; c != nil && c.Callback {
+			return c
+		}
+	}
 	key := types.TypeString(sig, func(p *types.Package) string {
 		if p == x.pkg.Pkg {
 			return ""
@@ -215,7 +225,31 @@ func (x *Exec) applyContract(st *State, fr *Frame, retTo ssa.Value, c *Contract,
 	env := &specEnv{x: x, st: st, vars: map[string]Val{}, pos: token.NoPos, where: "call of " + key}
 	for k, n := range names {
 		if k < len(args) {
-			env.vars[n] = args[k]
+			env.vars[n] = x.normArg(st, args[k])
+		}
+	}
+	for _, un := range c.Uses {
+		ue := &specEnv{x: x, st: st, vars: map[string]Val{}, frame: fr, pos: pos, where: "uses " + un}
+		for _, p := range fr.fn.Params {
+			ue.vars[p.Name()] = fr.regs[p]
+		}
+		if v, ok := ue.vars[un]; ok {
+			if lv, found := x.localByName(ue, un); found {
+				v = lv
+			}
+			env.vars[un] = v
+		} else if lv, found := x.localByName(ue, un); found {
+			env.vars[un] = lv
+		} else {
+			for i, fv := range fr.fn.FreeVars {
+				if fv.Name() == un {
+					// captured variable: the binding is the address of the variable
+					env.vars[un] = x.load(st, fr.bind[i], fv.Type().(*types.Pointer).Elem())
+				}
+			}
+			if _, ok := env.vars[un]; !ok {
+				panic(unsupported{"callback contract " + key + " uses " + un + " but the caller " + fr.fn.Name() + " has no such variable"})
+			}
 		}
 	}
 	site := x.siteName(fr, pos)
@@ -246,7 +280,7 @@ func (x *Exec) applyContract(st *State, fr *Frame, retTo ssa.Value, c *Contract,
 		}
 	}
 	mkEnv := func(s *State) *specEnv {
-		e := &specEnv{x: x, st: s, vars: map[string]Val{}, old: old, oldVars: oldVars, where: "call of " + key}
+		e := &specEnv{x: x, st: s, vars: map[string]Val{}, old: old, oldVars: oldVars, where: "call of " + key, callSite: true}
 		for k, v := range oldVars {
 			e.vars[k] = v
 		}
@@ -303,6 +337,29 @@ func (x *Exec) applyContract(st *State, fr *Frame, retTo ssa.Value, c *Contract,
 	return out
 }
 
+// normArg turns addresses of struct-valued fields/globals into reference terms so that contracts can use them.
+func (x *Exec) normArg(st *State, v Val) (res Val) {
+	defer func() {
+		if r := recover(); r != nil {
+			res = v
+		}
+	}()
+	switch a := v.(type) {
+	case FieldPtr:
+		if _, ok := under(a.S.Field(a.Idx).Type()).(*types.Struct); ok {
+			return st.asTerm(a, nil)
+		}
+	case GlobalPtr:
+		gt := a.G.Type().(*types.Pointer).Elem()
+		if _, ok := under(gt).(*types.Struct); ok {
+			r := st.globalRef(a.G)
+			r.Typ = a.G.Type()
+			return r
+		}
+	}
+	return v
+}
+
 func isDrawCall(key string) bool {
 	return key == "bitStream.drawBits"
 }
@@ -351,6 +408,9 @@ func (x *Exec) panicKind(st *State, pv Term, kind string) Term {
 	case "string":
 		tag := fmt.Sprint(x.typeTag(types.Typ[types.String]))
 		return Term{S: "(and ((_ is any_str) " + pv.S + ") (= (any_str_tag " + pv.S + ") " + tag + "))", Sort: sBool}
+	case "goexit":
+		// runtime.Goexit (FailNow/SkipNow on a real testing.TB): unwinds running deferred calls; not recoverable
+		return Term{S: "(and ((_ is any_other) " + pv.S + ") (= (any_other_id " + pv.S + ") (- 1)))", Sort: sBool}
 	case "other":
 		// anything that is neither invalidData nor stopTest
 		return tAnd(tNot(tSame(pv, Term{S: "any_nil", Sort: sAny})), tNot(x.panicKind(st, pv, "invalidData")), tNot(x.panicKind(st, pv, "stopTest")))
@@ -521,8 +581,23 @@ func (x *Exec) execBuiltin(st *State, fr *Frame, retTo ssa.Value, cc *ssa.CallCo
 	case "recover":
 		// non-nil only when called directly by a deferred function while its caller is unwinding
 		if fr.deferred && len(st.frames) >= 2 && st.frames[len(st.frames)-2].unwinding && st.panicking != nil {
-			res = *st.panicking
-			st.panicking = nil
+			// Goexit is not a panic: recover() returns nil for it and unwinding continues
+			isGoexit := st.def("isgoexit", x.panicKind(st, *st.panicking, "goexit"))
+			res = st.def("recovered", tIte(isGoexit, Term{S: "any_nil", Sort: sAny}, *st.panicking))
+			if isGoexit.S == "false" {
+				st.panicking = nil
+			} else if isGoexit.S != "true" {
+				// symbolic: split
+				other := st.fork()
+				other.assume(isGoexit)
+				ofr := other.top()
+				x.finish(other, ofr, retTo, Term{S: "any_nil", Sort: sAny}, deferred)
+				st.assume(tNot(isGoexit))
+				res = *st.panicking
+				st.panicking = nil
+				x.finish(st, fr, retTo, res, deferred)
+				return []*State{other}
+			}
 		} else {
 			res = Term{S: "any_nil", Sort: sAny}
 		}
